@@ -41,6 +41,17 @@ package main
 // an element of a parameter (the container's maker does not own what it holds) are reported at the function
 // itself, by the parameter's type, as before.  The summaries are computed to a fixed point.
 //
+// Round 6 (refactorings C16-3, C18-2, C18-3 of refac/, on which the round-5 table broke): (1) m[k] = append(m[k], v)
+// through a parameter m — the slice in a slot of the parameter's container grows where it stands — is decided at
+// the call sites like a store into the slot (a helper that fills the caller's map of lists = the inlined loop
+// body); (2) a NAMED function that takes a context and that a function off the run path hands over as a value
+// (compose.TransformableLambda(directReturn)) is a run-time closure written at top level: it is analysed like a
+// function of the run path, its locals are those of one invocation, and so are the variables its own closures
+// capture; (3) xs[i].f = e for a local xs := make([]T, n) of a per-run type T is the link T.f <- e that the literal
+// xs[i] = T{f: e} always was, and a link field name does not apply to a local literal of a type that is known
+// not to be per-run (ret := &toolsTuple{…}; ret.meta); (4) pkgVar = e and pkgVar++ written as a bare identifier
+// are stores into a package-level variable (until round 6 only a READ of the variable was a mention).
+//
 // Roots are followed through local bindings (x := r.f[k]; for _, v := range r.l; y := x.g) and rendered
 // with local names replaced by what they were bound to (index expressions as []), so that renaming a
 // local or reordering independent statements does not change the table.  Per-run types (their receivers,
@@ -131,6 +142,7 @@ type c09Var struct {
 	typ    string            // base type name when syntactically known
 	lit    *ast.CompositeLit // the literal a local was bound to
 	capt   bool              // a variable of the enclosing constructor, captured by the closure under analysis
+	elem   string            // element type name of a local slice made by make([]T, …) / []T{…}, when syntactically known
 }
 
 type c09Func struct {
@@ -391,7 +403,12 @@ func c09ContainerLevel(kind, suffix string) bool {
 	switch kind {
 	case "assign", "incdec", "delete":
 		return sfx == "" || sfx == "[]"
-	case "append", "copy", "send":
+	case "append":
+		// m[k] = append(m[k], v): the slice in a slot of the parameter's container grows where it stands — as for
+		// the slot itself, whose memory that is is decided by who made the container (a helper that fills the
+		// caller's map of lists = the inlined loop body, round 6)
+		return sfx == "" || sfx == "[]"
+	case "copy", "send":
 		return sfx == ""
 	}
 	if strings.HasPrefix(kind, "call:") {
@@ -487,7 +504,18 @@ func (s *c09Scope) classOf(e ast.Expr) (c09Class, string) {
 			s.p.markRoot(m.name())
 		}
 		if c <= c09Run && s.p.linkFields[x.Sel.Name] {
-			c = c09Shared // a per-run object's reference into the compiled record (by field name: the object may be a call's result)
+			// a per-run object's reference into the compiled record (by field name: the object may be a call's result) —
+			// unless the object is a local whose type is syntactically known NOT to be a per-run type (ret := &toolsTuple{…};
+			// ret.meta is not toolCallTask.meta, round 6)
+			known := false
+			if id, ok := x.X.(*ast.Ident); ok {
+				if v := s.env[id.Name]; v != nil && v.typ != "" && v.lit != nil && !s.p.perRun[v.typ] {
+					known = true
+				}
+			}
+			if !known {
+				c = c09Shared
+			}
 		}
 		return c, o + "." + x.Sel.Name
 	case *ast.IndexExpr:
@@ -775,6 +803,15 @@ func (s *c09Scope) bind(name string, c c09Class, origin string, rhs ast.Expr, de
 	if name == "_" {
 		return
 	}
+	if _, local := s.env[name]; !local && !define && s.p.pkgVars[name] {
+		// pkgVar = e: a store into a package-level variable written as a bare identifier (round 6: a pure write
+		// mentions the variable nowhere else)
+		if !s.p.sentinels[name] {
+			s.effect("pkgvar", c09Global, name)
+		}
+		s.effect("assign", c09Global, "pkg."+name)
+		return
+	}
 	v := &c09Var{class: c, origin: origin}
 	switch r := rhs.(type) {
 	case *ast.CompositeLit:
@@ -785,8 +822,22 @@ func (s *c09Scope) bind(name string, c c09Class, origin string, rhs ast.Expr, de
 			v.lit = cl
 			v.typ, _ = c09TypeBase(cl.Type)
 		}
+	case *ast.CallExpr:
+		if id, ok := r.Fun.(*ast.Ident); ok && id.Name == "make" && len(r.Args) > 0 {
+			if at, ok := r.Args[0].(*ast.ArrayType); ok && at.Len == nil {
+				v.elem, _ = c09TypeBase(at.Elt)
+			}
+		}
+	}
+	if cl, ok := rhs.(*ast.CompositeLit); ok {
+		if at, ok := cl.Type.(*ast.ArrayType); ok && at.Len == nil {
+			v.elem, _ = c09TypeBase(at.Elt)
+		}
 	}
 	if old, ok := s.env[name]; ok && !define {
+		if v.elem == "" {
+			v.elem = old.elem
+		}
 		if old.capt {
 			s.effect("assign", c09Captured, old.origin)
 			v.capt = true
@@ -844,6 +895,14 @@ func (s *c09Scope) linkStore(lhs ast.Expr, c c09Class, o string) {
 	if id, ok := sel.X.(*ast.Ident); ok {
 		if v := s.env[id.Name]; v != nil && v.typ != "" {
 			typ = v.typ
+		}
+	}
+	// xs[i].f = e, xs a local slice of per-run objects (xs := make([]T, n)): the same link as xs[i] = T{f: e} (round 6)
+	if ix, ok := sel.X.(*ast.IndexExpr); ok {
+		if id, ok := ix.X.(*ast.Ident); ok {
+			if v := s.env[id.Name]; v != nil && v.elem != "" && c >= c09Captured { // as for a field of a literal (classOf)
+				typ = v.elem
+			}
 		}
 	}
 	if !s.p.perRun[typ] {
@@ -925,6 +984,9 @@ func (s *c09Scope) stmt(st ast.Stmt) {
 		if id, ok := x.X.(*ast.Ident); ok {
 			if v := s.env[id.Name]; v != nil && v.capt {
 				s.effect("incdec", c09Captured, v.origin)
+			} else if v == nil && s.p.pkgVars[id.Name] {
+				s.effect("pkgvar", c09Global, id.Name)
+				s.effect("incdec", c09Global, "pkg."+id.Name)
 			}
 		}
 		s.store("incdec", x.X)
@@ -1176,6 +1238,86 @@ func (p *c09Pkg) analyseClosures(f *c09Func) {
 	}
 }
 
+func c09DeclTakesContext(d *ast.FuncDecl) bool {
+	if d.Type.Params == nil || len(d.Type.Params.List) == 0 {
+		return false
+	}
+	return strings.ReplaceAll(types.ExprString(d.Type.Params.List[0].Type), " ", "") == "context.Context"
+}
+
+// runTimeValues: the functions of the package that take a context and that f mentions as VALUES
+// (not in call position) are run-time functions (see run1)
+func (p *c09Pkg) runTimeValues(f *c09Func) {
+	if f.decl.Body == nil {
+		return
+	}
+	called := map[ast.Expr]bool{}
+	shadow := map[string]bool{}
+	note := func(fl *ast.FieldList) {
+		if fl == nil {
+			return
+		}
+		for _, x := range fl.List {
+			for _, n := range x.Names {
+				shadow[n.Name] = true
+			}
+		}
+	}
+	note(f.decl.Recv)
+	note(f.decl.Type.Params)
+	note(f.decl.Type.Results)
+	ast.Inspect(f.decl.Body, func(n ast.Node) bool {
+		switch x := n.(type) {
+		case *ast.AssignStmt:
+			if x.Tok == token.DEFINE {
+				for _, l := range x.Lhs {
+					if id, ok := l.(*ast.Ident); ok {
+						shadow[id.Name] = true
+					}
+				}
+			}
+		case *ast.ValueSpec:
+			for _, nm := range x.Names {
+				shadow[nm.Name] = true
+			}
+		case *ast.FuncLit:
+			note(x.Type.Params)
+		}
+		return true
+	})
+	ast.Inspect(f.decl.Body, func(n ast.Node) bool {
+		switch x := n.(type) {
+		case *ast.CallExpr:
+			called[x.Fun] = true
+			switch g := x.Fun.(type) { // f[T](…)
+			case *ast.IndexExpr:
+				called[g.X] = true
+			case *ast.IndexListExpr:
+				called[g.X] = true
+			case *ast.ParenExpr:
+				called[g.X] = true
+			}
+		case *ast.KeyValueExpr:
+			if _, isField := x.Key.(*ast.Ident); isField {
+				called[x.Key] = true // a field name in a composite literal is no mention of a function
+			}
+		case *ast.Ident:
+			if called[x] || shadow[x.Name] {
+				return true
+			}
+			// (an exported function stays what it was: a constructor such as NewAgent is not turned into a run-time
+			// function — its closures into closures over per-invocation locals — by being mentioned as a value)
+			if fn := p.funcs[x.Name]; fn != nil && fn != f && c09DeclTakesContext(fn.decl) && !ast.IsExported(x.Name) {
+				p.enqueue(fn)
+				p.markRoot(fn.name())
+			}
+		case *ast.SelectorExpr:
+			called[x.Sel] = true // a field or method name, not a function of the package (method values: not followed here)
+		}
+		return true
+	})
+}
+
 // the one analysed (run-path) function or method whose first result is a *T
 func (p *c09Pkg) returning(typ string) *c09Func {
 	var found []*c09Func
@@ -1305,6 +1447,24 @@ func (p *c09Pkg) run1(roots []string) error {
 		rest = append(rest, f)
 	}
 	sort.Slice(rest, func(i, j int) bool { return rest[i].name() < rest[j].name() })
+	// A NAMED function that takes a context and is handed over as a value by a function that is not on the
+	// run path (compose.TransformableLambda(directReturn), NewStreamGraphBranch(toolsPostBranchCondition, …)) is
+	// what a run-time closure is when it is written at top level: it runs per call, its locals are those of one
+	// invocation, and so are the variables its own closures capture.  It is analysed like a function of the run
+	// path (callers unknown), with everything it calls — not as a constructor whose closures share its variables
+	// (round 6: closures of a constructor extracted into top-level functions).
+	for pass := 0; pass < 8; pass++ {
+		n := len(p.analysed)
+		for _, f := range rest {
+			if !p.analysed[f.name()] && !strings.HasPrefix(f.decl.Name.Name, "verif") {
+				p.runTimeValues(f)
+			}
+		}
+		drain()
+		if len(p.analysed) == n {
+			break
+		}
+	}
 	for _, f := range rest {
 		if !p.analysed[f.name()] && !strings.HasPrefix(f.decl.Name.Name, "verif") {
 			p.analyseClosures(f)
